@@ -52,10 +52,113 @@ func TestVerifProcRun(t *testing.T) {
 		n = 240
 	}
 	vWithSupervisor(t, func(root context.Context) {
+		o.emit(vRunRestart(t, root, w, 900000))
 		for id := 0; id < n; id++ {
 			o.emit(vRunOne(t, root, w, id))
 		}
 	})
+}
+
+// the supervisor re-runs the SAME runnable (p.Run of the same Processor object) after a failure: what the processor has signed and
+// collected so far belongs to the Processor, not to one run of its loop.  A message is observed and signed, one peer signature arrives
+// (2 of 4, threshold 3), Run is ended and started again, another peer signature arrives: the entry must still be there and complete.
+func vRunRestart(t *testing.T, root context.Context, w *vWorld, id int) *vRunRow {
+	row := &vRunRow{K: "run", ID: id, Mon: []string{}, Shape: "n=4 own=0 restart of the runnable below quorum"}
+	dir, err := os.MkdirTemp(os.Getenv("VERIF_TMP"), "procrun")
+	if err != nil {
+		t.Fatal(err)
+	}
+	defer os.RemoveAll(dir)
+	d, err := db.Open(dir)
+	if err != nil {
+		t.Fatal(err)
+	}
+	defer d.Close()
+	lockC := make(chan *common.MessagePublication)
+	setC := make(chan *common.GuardianSet)
+	sendC := make(chan []byte, 8192)
+	obsvC := make(chan *gossipv1.SignedObservation, 50)
+	reqC := make(chan *gossipv1.ObservationRequest, 8192)
+	p := NewProcessor(root, d, lockC, setC, sendC, obsvC, reqC, make(chan *vaa.VAA), make(chan *gossipv1.SignedVAAWithQuorum, 50), &ecdsasigner.ECDSAPrivateKey{Value: w.own},
+		common.NewGuardianSetState(nil), reporter.EventListener(zap.NewNop()), nil, w.govCh, w.govAddr)
+	start := func() (context.CancelFunc, chan string) {
+		ctx, cancel := context.WithCancel(root)
+		done := make(chan string, 1)
+		go func() {
+			defer func() {
+				if x := recover(); x != nil {
+					done <- fmt.Sprint(x)
+					return
+				}
+				done <- ""
+			}()
+			p.Run(ctx)
+		}()
+		return cancel, done
+	}
+	feed := func(done chan string, f func()) bool {
+		c := make(chan struct{})
+		go func() { f(); close(c) }()
+		select {
+		case <-c:
+			row.Fed++
+			return true
+		case msg := <-done:
+			row.Mon = append(row.Mon, "processor panicked: "+msg+" (Run loop)")
+			return false
+		case <-time.After(20 * time.Second):
+			row.Mon = append(row.Mon, "harness: Run loop did not accept an input within 20 s")
+			return false
+		}
+	}
+	members := []int{-1, 10, 11, 12}
+	gs := w.set(members, 0)
+	k := w.msg(0)
+	dg := digestOfMsg(k, 0)
+	cancel1, done1 := start()
+	ok := feed(done1, func() { setC <- gs }) && feed(done1, func() { lockC <- k }) &&
+		feed(done1, func() { obsvC <- w.obsBy(10, dg, k.TxHash[:]) })
+	// the own signature comes back through obsvC by itself; wait until the loop has taken everything
+	for i := 0; i < 100 && (len(obsvC) > 0 || i < 10); i++ {
+		time.Sleep(20 * time.Millisecond)
+	}
+	cancel1()
+	select {
+	case <-done1:
+	case <-time.After(5 * time.Second):
+		row.Mon = append(row.Mon, "harness: Run did not return within 5 s of its context being cancelled")
+		ok = false
+	}
+	if !ok {
+		return row
+	}
+	cancel2, done2 := start()
+	defer cancel2()
+	ok = feed(done2, func() { setC <- gs }) && feed(done2, func() { obsvC <- w.obsBy(11, dg, k.TxHash[:]) })
+	dr := &vDriver{own: w.own}
+	published := false
+	deadline := time.After(5 * time.Second)
+	for ok && !published {
+		select {
+		case m := <-sendC:
+			var g gossipv1.GossipMessage
+			if proto.Unmarshal(m, &g) == nil {
+				if x, is := g.Message.(*gossipv1.GossipMessage_SignedVaaWithQuorum); is {
+					if v, okp := vparse(x.SignedVaaWithQuorum.Vaa); okp && dr.verifiesAgainst(v, gs) {
+						published = true
+						row.Sent++
+					}
+				}
+			}
+		case <-deadline:
+			ok = false
+		}
+	}
+	if !published {
+		row.Mon = append(row.Mon, "C14: a signed entry that still lacked quorum was gone after the processor's runnable was run again on the same Processor (as the supervisor does after a failure): the node's own signature and one member's were delivered before the restart, a third member's after it (3 of 4, threshold 3), and no VAA was published within 5 s")
+	}
+	row.Expected = 1
+	return row
 }
 
 func vRunOne(t *testing.T, root context.Context, w *vWorld, id int) *vRunRow {
